@@ -350,3 +350,34 @@ upsample = interpolate
 def linear(input, weight, bias=None):
     r = input.matmul(weight.t())
     return r if bias is None else r + bias
+
+
+def pixel_shuffle(input, upscale_factor):
+    r = int(upscale_factor)
+    a = input.a
+    if a.ndim < 3:
+        raise RuntimeError('pixel_shuffle expects input to have at least 3 dimensions, but got input with %d dimension(s)' % a.ndim)
+    *lead, c, h, w = a.shape
+    if c % (r * r):
+        raise RuntimeError('pixel_shuffle expects its input\'s \'channel\' dimension to be divisible by the square of upscale_factor, '
+                           'but input.size(-3)=%d is not divisible by %d' % (c, r * r))
+    oc = c // (r * r)
+    x = a.reshape(*lead, oc, r, r, h, w)
+    n = len(lead)
+    x = np.transpose(x, list(range(n)) + [n, n + 3, n + 1, n + 4, n + 2])
+    return input._fresh(np.ascontiguousarray(x).reshape(*lead, oc, h * r, w * r))
+
+
+def pixel_unshuffle(input, downscale_factor):
+    r = int(downscale_factor)
+    a = input.a
+    if a.ndim < 3:
+        raise RuntimeError('pixel_unshuffle expects input to have at least 3 dimensions, but got input with %d dimension(s)' % a.ndim)
+    *lead, c, h, w = a.shape
+    if h % r or w % r:
+        raise RuntimeError('pixel_unshuffle expects height to be divisible by downscale_factor, but input.size(-2)=%d is not divisible by %d' % (h, r)
+                           if h % r else 'pixel_unshuffle expects width to be divisible by downscale_factor, but input.size(-1)=%d is not divisible by %d' % (w, r))
+    x = a.reshape(*lead, c, h // r, r, w // r, r)
+    n = len(lead)
+    x = np.transpose(x, list(range(n)) + [n, n + 2, n + 4, n + 1, n + 3])
+    return input._fresh(np.ascontiguousarray(x).reshape(*lead, c * r * r, h // r, w // r))
